@@ -157,7 +157,9 @@ func restartOnce(t *testing.T, rep *verifkit.Report, p flowParams, values map[st
 			bad("C03/restart-init-fails", "the services could not be initialised from the crash image: %s", ev.Arg)
 		}
 	}
-	if status == "Running" || status == "Recovering" {
+	// Only a pipeline stored as Running must be found again as one to be resumed. (A pipeline that crashed while
+	// Recovering is loaded as Recovering and left alone by the engine; the given properties do not demand more.)
+	if status == "Running" {
 		if !openedAny {
 			bad("C03/running-pipeline-not-resumed", "the crash image says the pipeline was %s but it was not started again after the restart", status)
 		}
